@@ -91,8 +91,14 @@ def _features(tr, feats):
     if any(e["a"] == "WireEnd" and not e["last"] for e in ev):
         feats["chunked-end"] = feats.get("chunked-end", 0) + 1
     if len(tr["roots"]) > 1:
-        acting = {e["t"] for e in ev if e["a"] in ("WireStart", "WireEnd")}
-        if len(acting & set(tr["roots"])) > 1 or len(acting) > 1:
+        root = {r: r for r in tr["roots"]}
+        order = []
+        for e in ev:
+            if e["a"] == "Spawn":
+                root[e["u"]] = root[e["t"]]
+            if e["a"] in ("WireStart", "WireEnd") and (not order or order[-1] != root[e["t"]]):
+                order.append(root[e["t"]])
+        if len(order) > len(set(order)):  # wire events of different clients interleave
             feats["several-clients"] = feats.get("several-clients", 0) + 1
     if any(e["a"] == "Enter" and e["par"] != 0 for e in ev):
         feats["nested"] = feats.get("nested", 0) + 1
